@@ -34,18 +34,28 @@ theorem clone_creates_leaves (ρ : Nat → Nat) (ty : GTy) (s d : Nat) :
     ∧ noStuck (cloneTy prog ρ ty s d) = true :=
   ⟨cloneTy_cloned ρ ty s d, leaves2_src ρ ty s d, cloneTy_noStuck ρ ty s d⟩
 
-/-- T2. `clone_drop_balanced`: let the destination hold the same discriminants as
-    the source (`ρ'` at `d + o` = `ρ` at `s + o`: the copy has the same active
-    variants). Then dropping the copy releases exactly the host values the clone
-    created, at the addresses where it created them, and the clone read exactly
-    the leaves of the source. -/
+/-- T2. `clone_drop_balanced`: let the memory `ρ'` in which the copy is later dropped
+    hold, at every discriminant byte the clone function wrote (`tags`: the `mem::write` of
+    the discriminant in `generate_clone_body_enum`, at every nesting level it reaches), the
+    value the clone wrote there. Then dropping the copy releases exactly the host values
+    the clone created, at the addresses where it created them, and the clone read exactly
+    the leaves of the source. (That no later `memcpy` / leaf clone of the same clone call
+    overwrites such a byte is a disjointness fact of the layout, property C02.) -/
 theorem clone_drop_balanced (ρ ρ' : Nat → Nat) (ty : GTy) (s d : Nat)
-    (H : ∀ o, ρ' (d + o) = ρ (s + o)) :
+    (H : ∀ p ∈ tags (cloneTy prog ρ ty s d), ρ' p.2 = ρ p.1) :
     dropped (dropTy prog ρ' ty d) = (cloned (cloneTy prog ρ ty s d)).map dstOf
     ∧ (cloned (cloneTy prog ρ ty s d)).map srcOf = leaves ρ ty s := by
+  rw [cloneTy_tags] at H
   refine ⟨?_, ?_⟩
-  · rw [dropTy_eq, dropped_map_mkDrop, cloneTy_cloned, leaves2_dst ρ ρ' ty s d H]
+  · rw [dropTy_eq, dropped_map_mkDrop, cloneTy_cloned, leaves2_dst' ρ ρ' ty s d H]
   · rw [cloneTy_cloned, leaves2_src]
+
+/-- T2 for a byte-wise copy: if the destination holds the source's discriminants at every
+    offset, the same conclusion. -/
+theorem clone_drop_balanced_of_copy (ρ ρ' : Nat → Nat) (ty : GTy) (s d : Nat)
+    (H : ∀ o, ρ' (d + o) = ρ (s + o)) :
+    dropped (dropTy prog ρ' ty d) = (cloned (cloneTy prog ρ ty s d)).map dstOf := by
+  rw [dropTy_eq, dropped_map_mkDrop, cloneTy_cloned, leaves2_dst ρ ρ' ty s d H]
 
 /-- T2 (second half). A type the lowerer says needs no drop has no droppable
     leaf, its drop function does nothing and its clone creates nothing. -/
@@ -73,7 +83,14 @@ example : cloned (cloneTy prog (fun _ => 0) exF 1000 2000) = [(1016, 2016, 1)] :
 
 example : dropped (dropTy prog (fun _ => 0) exF 2000)
     = (cloned (cloneTy prog (fun _ => 0) exF 1000 2000)).map dstOf :=
-  (clone_drop_balanced (fun _ => 0) (fun _ => 0) exF 1000 2000 (fun _ => rfl)).1
+  (clone_drop_balanced (fun _ => 0) (fun _ => 0) exF 1000 2000 (fun _ _ => rfl)).1
+
+/-- the clone of `S(u8, String, u64, Tk)` writes one discriminant byte, the enum's own -/
+example : tags (cloneTy prog (fun _ => 1) exF 1000 2000) = [(1000, 2000)] := by decide
+
+example : dropped (dropTy prog (fun _ => 1) exF 2000)
+    = (cloned (cloneTy prog (fun _ => 1) exF 1000 2000)).map dstOf :=
+  clone_drop_balanced_of_copy (fun _ => 1) (fun _ => 1) exF 1000 2000 (fun _ => rfl)
 
 example : needsDrop (.record (.cons u64 (.cons u8 .nil))) = false := by decide
 
